@@ -5,6 +5,7 @@ import glob, os, subprocess, sys, tempfile, shutil, json
 from concurrent.futures import ThreadPoolExecutor
 
 def one(path):
+    path = os.path.abspath(path)
     tag = "/".join(path.rstrip("/").split("/")[-2:])
     patch = os.path.join(path, "patch.diff")
     if os.path.exists(os.path.join(path, "patch_rebased.diff")):
@@ -43,7 +44,7 @@ if __name__ == "__main__":
     for d in ("jv", "bin"):
         shutil.copytree(os.path.join("/verif", d), os.path.join(VSNAP, d))
     shutil.copy("/verif/known_findings.json", VSNAP)
-    paths = sys.argv[1:] or sorted(p for p in glob.glob("/tmp/ref/out/*/r*") if os.path.isdir(p))
+    paths = [p for p in (sys.argv[1:] or sorted(glob.glob("/verif/refactorings/*"))) if os.path.isdir(p)]
     with ThreadPoolExecutor(8) as ex:
         for tag, st, bad in ex.map(one, paths):
             print(tag, st, "ALL SILENT" if (st == "ok" and not bad) else "")
